@@ -89,6 +89,31 @@ class KeysView(list):
     """dict.keys(): a list (insertion order) that also supports the set operators."""
 
 
+def _is_memoised(fnode) -> bool:
+    cached = getattr(fnode, "_memoised", None)
+    if cached is None:
+        names = []
+        for d in getattr(fnode, "decorator_list", []):
+            t = d.func if isinstance(d, ast.Call) else d
+            names.append(t.attr if isinstance(t, ast.Attribute) else getattr(t, "id", ""))
+        cached = any(n in ("lru_cache", "cache") for n in names)
+        try:
+            fnode._memoised = cached
+        except AttributeError:
+            pass
+    return cached
+
+
+def _memo_key(a):
+    if isinstance(a, (int, str, bool, float, Fraction, bytes)) or a is None:
+        return a
+    if isinstance(a, tuple):
+        return tuple(_memo_key(x) for x in a)
+    if isinstance(a, RF):
+        return ("rf", repr(a))
+    return ("obj", id(a))
+
+
 def _re_fold(attr, a, k=None):
     """Constant folding of a pure regular-expression function on literal arguments."""
     import re as _re_mod
@@ -469,6 +494,9 @@ class Interp:
             return cache[c]
         order, info = [], {}
         for m, cd in reversed(self.class_mro(c)):
+            is_record = any("dataclass" in unparse(d) for d in cd.decorator_list) or any("NamedTuple" in unparse(b) for b in cd.bases)
+            if not is_record:
+                continue  # annotated names in an ordinary class body are class attributes, not per-instance fields
             for st in cd.body:
                 if isinstance(st, ast.AnnAssign) and isinstance(st.target, ast.Name):
                     if unparse(st.annotation).startswith("ClassVar"):
@@ -521,11 +549,19 @@ class Interp:
             return clo  # unbound
         for m, cd in self.class_mro(c):
             for st in cd.body:
+                val = None
                 if isinstance(st, ast.Assign) and len(st.targets) == 1 and isinstance(st.targets[0], ast.Name) \
                         and st.targets[0].id == name:
-                    return self.eval(st.value, {"__mod__": m})
+                    val = st.value
                 if isinstance(st, ast.AnnAssign) and isinstance(st.target, ast.Name) and st.target.id == name and st.value:
-                    return self.eval(st.value, {"__mod__": m})
+                    val = st.value
+                if val is not None:
+                    # a class attribute is created once per process: mutable values keep what is written into them
+                    ck = (m.name, cd.name, name)
+                    store = self.__dict__.setdefault("class_state", {})
+                    if ck not in store:
+                        store[ck] = self.eval(val, {"__mod__": m})
+                    return store[ck]
             # module-level `Class.attr = value`
             for st in m.tree.body:
                 if isinstance(st, ast.Assign) and len(st.targets) == 1 and isinstance(st.targets[0], ast.Attribute) \
@@ -582,6 +618,19 @@ class Interp:
             key = (f.mod.name, getattr(f.node, "_qualname", f.name))
             if key in self.hooks:
                 return self.hooks[key](self, args, kwargs)
+            if _is_memoised(f.node):
+                # functools.lru_cache / cache: one result per argument tuple (objects by identity), for the life of the process
+                store = self.__dict__.setdefault("memo", {}).setdefault(id(f.node), {})
+                try:
+                    mk = (tuple(_memo_key(a) for a in args), tuple(sorted((k, _memo_key(v)) for k, v in kwargs.items())))
+                    hash(mk)
+                except TypeError:
+                    return self.call_closure(f, args, kwargs)
+                if mk in store:
+                    return store[mk][0]
+                v = self.call_closure(f, args, kwargs)
+                store[mk] = (v, list(args))  # keep the arguments alive: identities must not be reused
+                return v
             return self.call_closure(f, args, kwargs)
         if isinstance(f, ClassRef):
             return self.construct(f, args, kwargs)
@@ -761,11 +810,20 @@ class Interp:
             self.exec_block(st.finalbody, env)
         elif isinstance(st, (ast.Import, ast.ImportFrom)):
             pass
+        elif isinstance(st, (ast.Global, ast.Nonlocal)):
+            env.setdefault("__global_names__", set()).update(st.names) if isinstance(st, ast.Global) else None
         else:
             raise Undecided(f"statement {type(st).__name__} not interpreted")
 
     def assign(self, target, v, env):
         if isinstance(target, ast.Name):
+            if target.id in env.get("__global_names__", ()):
+                # module-level state written by a function: lives as long as the process
+                mod = self._mod(env)
+                for k in [k for k in self._modcache if k[0] == mod.name and k[1] == target.id]:
+                    del self._modcache[k]
+                self._modcache[(mod.name, target.id, None)] = v
+                return
             env[target.id] = v
         elif isinstance(target, (ast.Tuple, ast.List)):
             items = list(self.iterate(v))
@@ -1235,9 +1293,13 @@ class Interp:
                 return base
         if isinstance(base, Builtin):
             return Builtin(base.name + "." + attr)
-        if isinstance(base, (Bound, Closure)) and attr in ("cache_clear",):
-            # functools caches are not modelled (every call is evaluated afresh): clearing one is a no-op here
-            return PyCallable(lambda it, a, k: None)
+        if isinstance(base, (Bound, Closure)) and attr in ("cache_clear", "cache_info"):
+            node = (base.fn if isinstance(base, Bound) else base).node
+
+            def _clear(it, a, k, node=node):
+                it.__dict__.setdefault("memo", {}).pop(id(node), None)
+                return None
+            return PyCallable(_clear)
         raise Undecided(f"attribute {attr} of {type(base).__name__}")
 
     def container_method(self, b, at, a, k):
@@ -1498,7 +1560,8 @@ class Interp:
         if isinstance(v, (tuple, list)):
             return list(v)
         if isinstance(v, (frozenset, set)):
-            return sorted(v, key=repr)
+            # hash order is not defined by the language: a fixed order, reversible to probe order-dependence
+            return sorted(v, key=repr, reverse=bool(getattr(self, "set_order_reversed", False)))
         if isinstance(v, dict):
             return [_unh(k) for k in v.keys() if k != "__default_factory__"]
         if isinstance(v, str):
